@@ -155,6 +155,11 @@ VChain(ev) ==
 \* hiding (H = MD5)
 MD5H(m) == MD5(m)
 
+\* C12's own statement about the wire form of a hidden AVP: hidden bit set, attribute type in clear, the
+\* hidden value as the payload (everything else about the record is C06's business)
+HideWireBad(enc, hv) ==
+  Len(enc) < 6 \/ ~Bit(enc[1], 1) \/ U16At(enc, 4) # hv.f[1] \/ Drop(enc, 6) # hv.f[2]
+
 VHide(ev) ==
   LET sp == Hide(MD5H, ev.v, ev.secret, ev.rv, ev.lp, ev.ap) IN
   (IF ev.out.t = "panic" THEN T(~sp.panic, "unexpected-panic")
@@ -164,7 +169,8 @@ VHide(ev) ==
         \o T(~IsHidden(ev.v) /\ ev.out.v.k = "Hidden"
                /\ Len(ev.out.v.f[2]) # HiddenLength(AvpPayload(ev.v), ev.lp), "hide-length")
         \o T(~IsHidden(ev.v) /\ ev.out.v.k = "Hidden" /\ ev.out.v.f[1] # AvpTypeOf(ev.v), "hide-type")
-        \o T(Has(ev, "enc") /\ ev.enc # AvpRecord(sp.v), "hide-wire"))
+        \o T(Has(ev, "enc") /\ ev.enc # AvpRecord(sp.v), "hide-wire")
+        \o T(Has(ev, "enc") /\ sp.v.k = "Hidden" /\ HideWireBad(ev.enc, sp.v), "hide-wire-form"))
   \o IoTags(ev)
 
 VReveal(ev) ==
@@ -192,6 +198,7 @@ VHideReveal(ev) ==
                ELSE T(~(ev.r1.t = "ok" /\ AvpEq(ev.r1.v, ev.v)), "reveal-direct")
                     \o T(~ev.eq1, "native-eq")
                     \o T(ev.enc # AvpRecord(sp.v), "hide-wire")
+                    \o T(sp.v.k = "Hidden" /\ HideWireBad(ev.enc, sp.v), "hide-wire-form")
                     \o (IF ~Has(ev, "r2") THEN <<"reveal-wire">>
                         ELSE T(~(ev.r2.t = "ok" /\ AvpEq(ev.r2.v, ev.v)), "reveal-wire")
                              \o T(~ev.eq2, "native-eq"))))
